@@ -27,7 +27,7 @@ def _run_one(args):
     # an exception other than the documented NotOpenError / QueueOverflowError out of send(), or any out of open / close / reset
     # (an unencodable message of the harness's own making may raise out of send(): the caller's error, not judged)
     bg += [e for st in r["steps"] for e in st["events"] if e[0] == "apiRaised" or (e[0] == "sendRaised" and e[-1] == "ok")]
-    return {"obs": sockobs.observable(r), "steps": r["steps"], "census": r["census"], "delivered": r.get("delivered", []),
+    return {"obs": sockobs.observable(r), "steps": r["steps"], "census": r["census"], "delivered": r.get("delivered", []), "handled2": r.get("handled2", []),
             "unhandled": r.get("unhandled", []), "bg": bg}
 
 
